@@ -18,6 +18,9 @@ type DevDef struct {
 type Record struct {
 	IsDef bool
 	Local byte // local message type: 0..15 (0..3 for compressed headers)
+	// HdrBits: reserved bits of a normal record header that are set on the wire (0x10 for
+	// definitions, 0x10 and 0x20 for data records): readers ignore them.
+	HdrBits byte
 
 	// Definition records.
 	Arch     byte // 0 little endian, 1 big endian
@@ -70,7 +73,7 @@ func (p *Plan) HeaderBytes(n int) []byte {
 func RecordBytes(r *Record) []byte {
 	var out []byte
 	if r.IsDef {
-		hdr := byte(0x40) | r.Local&0x0F
+		hdr := byte(0x40) | r.Local&0x0F | r.HdrBits&0x10
 		if r.HasDev {
 			hdr |= 0x20
 		}
@@ -92,7 +95,7 @@ func RecordBytes(r *Record) []byte {
 	if r.Compressed {
 		out = append(out, 0x80|(r.Local&3)<<5|r.TimeOffset&0x1F)
 	} else {
-		out = append(out, r.Local&0x0F)
+		out = append(out, r.Local&0x0F|r.HdrBits&0x30)
 	}
 	for _, d := range r.Data {
 		out = append(out, d...)
